@@ -1,18 +1,30 @@
 #!/usr/bin/env python3
-"""Merge the scratch result files of the sweep workers into sweep/results.jsonl (only mutants of the current list)."""
-import json, glob, sys
-muts = json.load(open('/tmp/ms/mutants.json'))
+"""Merge the scratch result files of the sweep workers into sweep/results.jsonl.
+usage: collect.py <scratch-dir> [<scratch-dir> ...]      (e.g. /tmp/ms0 /tmp/ms1 /tmp/ms2)
+Pass 1 (results_*.jsonl: the checks mapped to the mutant's file, harness as of the start of the sweep) is overridden
+by pass 2 (resweep_*.jsonl: ALL twenty quick checks, cheapest first, harness as of the start of pass 2) where a
+mutant was run again; every record says which pass decided it."""
+import json, glob, sys, collections
+dirs = sys.argv[1:] or ['/tmp/ms0', '/tmp/ms1', '/tmp/ms2']
+muts = json.load(open('/verif/sweep/mutants.json'))
 keys = {(m['file'], m['line'], m['kind'], m['new'].strip()) for m in muts}
 out = {}
-for f in sorted(glob.glob('/tmp/ms/results_*.jsonl')) + sorted(glob.glob('/tmp/ms2/results_*.jsonl')):
-    for l in open(f):
-        r = json.loads(l)
-        k = (r['file'], r['line'], r['kind'], r['new'])
-        if k in keys and r['status'] != 'stale':
-            out[k] = r
-json.dump(muts, open('/verif/sweep/mutants.json', 'w'), indent=0)
+# (results_prev.jsonl = results of the earlier, partial sweep that pass 1 did not repeat: "pass 0")
+for pat, p in (('results_prev.jsonl', 0), ('results_[!p]*.jsonl', 1), ('resweep_*.jsonl', 2)):
+    for d in dirs:
+        for f in sorted(glob.glob(f'{d}/{pat}')):
+            for l in open(f):
+                r = json.loads(l)
+                k = (r['file'], r['line'], r['kind'], r['new'])
+                if k not in keys or r['status'] == 'stale':
+                    continue
+                r['pass'] = p
+                out[k] = r
 with open('/verif/sweep/results.jsonl', 'w') as f:
     for k in sorted(out):
-        r = out[k]; r.pop('idx', None); r.pop('tail', None)
+        r = out[k]
+        for x in ('idx', 'tail', 'pass2'):
+            r.pop(x, None)
         f.write(json.dumps(r, sort_keys=True) + '\n')
-print(len(out), 'results')
+c = collections.Counter((r['pass'], r['status']) for r in out.values())
+print(len(out), 'of', len(muts), 'mutants have a result;', dict(sorted(c.items())))
